@@ -153,8 +153,8 @@ package h2
 //@   invariant forall k uint32 :: k in r.outputBuffers ==> r.outputBuffers[k].windowSize == old(r.outputBuffers[k].windowSize) + ite(visited(k), v - old(r.initialWindowSize), 0)
 
 //@ func (*relay).updateMaxFrameSize
-//@ property C09
-//@ requires r != nil
+//@ property C09 C12
+//@ requires r != nil && v >= 16384 && v <= 16777215
 //@ modifies r.maxFrameSize
 //@ ensures r.maxFrameSize == v
 
@@ -294,3 +294,55 @@ package h2
 //@   invariant forall i int :: 0 <= i && i < 24 ==> (i < m ==> preface[i] == stream(client)[old(pos(client)) + 24 - m + i])
 //@   invariant pos(client) == old(pos(client)) + 24 && isPreface(stream(client), old(pos(client))) && rdFailed(client) == false
 //@   decreases m
+
+// ---- frame dispatch (C10) ----
+
+//@ pred relayInv(r *relay) = relayWF(r) && relayInj(r) && quiescent(r) && frameSizeOK(r)
+
+//@ func (*headerContinuation).complete
+//@ property C10
+//@ requires h != nil && s != nil
+//@ modifies **
+//@ ensures pHdrN(s) == old(pHdrN(s)) + 1 && pHdrEnd(s) == old(h.endStream) && pHdrPrio(s) == old(h.priority) && pHdrList(s) == headers
+
+//@ func (*pushPromiseContinuation).complete
+//@ property C10
+//@ requires p != nil && s != nil
+//@ modifies **
+//@ ensures pPushN(s) == old(pPushN(s)) + 1 && pPushID(s) == old(p.promiseID) && pPushList(s) == headers
+
+// The SETTINGS callback: the peer relay only ever sees a legal max frame size.
+//@ func (*relay).processFrame$1
+//@ property C09 C10 C12
+//@ implements settingFn
+//@ requires r != nil && r.peer != nil && relayWF(r.peer) && relayInj(r.peer) && r.peer.decoder != nil && r.peer.encoder != nil
+//@ modifies pkg(hpack), relay.initialWindowSize, relay.maxFrameSize, relay.connectionWindowSize, outputBuffer.windowSize, elems(http2.Setting), cells([]http2.Setting), qlo, nsent, outseq, sentAll
+
+//@ func (*relay).decodeFull
+//@ property C10
+//@ requires r != nil && r.decoder != nil
+//@ modifies pkg(hpack), pkg(bytes), elems(byte), elems(hpack.HeaderField)
+
+//@ func (*relay).updateTableSize
+//@ property C10
+//@ requires r != nil && r.decoder != nil && r.encoder != nil
+//@ modifies pkg(hpack)
+
+//@ func (continuationState).complete
+//@ trusted
+//@ modifies **
+
+// processFrame, per frame kind: which processor call / which connection-level
+// write it results in, with which arguments. (Frames come from the Framer:
+// the interface never holds a nil frame pointer.)
+//@ func (*relay).processFrame
+//@ property C09 C10
+//@ requires r != nil && f != nil && nonnilptr(f) && r.peer != nil && r.dest != nil && r.peer.dest != nil && r.decoder != nil && r.peer.decoder != nil && r.peer.encoder != nil && relayInv(r.peer)
+//@ requires f is *http2.DataFrame ==> f.(*http2.DataFrame).StreamID != 0
+//@ requires f is *http2.ContinuationFrame ==> r.continuationState != nil
+//@ modifies **
+//@ ensures f is *http2.DataFrame && result == nil ==> pDataN(procOf(r, old(f.(*http2.DataFrame).StreamID))) == old(pDataN(procOf(r, f.(*http2.DataFrame).StreamID))) + 1
+//@ ensures f is *http2.PriorityFrame && result == nil ==> pPrio(procOf(r, old(f.(*http2.PriorityFrame).StreamID))) == old(f.(*http2.PriorityFrame).PriorityParam)
+//@ ensures f is *http2.RSTStreamFrame && result == nil ==> pRst(procOf(r, old(f.(*http2.RSTStreamFrame).StreamID))) == old(f.(*http2.RSTStreamFrame).ErrCode)
+//@ ensures f is *http2.HeadersFrame && !old(hfEnded(f.(*http2.HeadersFrame))) ==> result == nil && r.continuationState is *headerContinuation && r.continuationState.(*headerContinuation).endStream == old(hfStreamEnded(f.(*http2.HeadersFrame))) && r.continuationState.(*headerContinuation).priority == old(f.(*http2.HeadersFrame).Priority)
+//@ ensures f is *http2.PushPromiseFrame && !old(ppEnded(f.(*http2.PushPromiseFrame))) ==> result == nil && r.continuationState is *pushPromiseContinuation && r.continuationState.(*pushPromiseContinuation).promiseID == old(f.(*http2.PushPromiseFrame).PromiseID)
